@@ -35,7 +35,7 @@ def setup_worker():
 def cases(tier):
     main = c01.vector_case(FORMATS, tier, max_sources=4 if tier == "quick" else 8, lib_always=True, lib_prob=0.85, p_grad=0.35,
                            tolerances=TOLS, allow_groups=True)
-    return st.one_of(main, main, main, c01.grid_case(FORMATS, tier, tolerances=[0.1, 0.5, 0.01]), c01.grid_case(FORMATS, tier, tolerances=[0.1, 0.1, 0.5]), c01.far_reuse_case(FORMATS, tier), c01.paint_variants_case(FORMATS, tier), c01.overlay_case(FORMATS, tier), c01.prefix_pair_case(FORMATS, tier), c01.sandwich_case(FORMATS, tier, tolerances=TOLS))
+    return st.one_of(main, main, main, c01.grid_case(FORMATS, tier, tolerances=[0.1, 0.5, 0.01]), c01.grid_case(FORMATS, tier, tolerances=[0.1, 0.1, 0.5]), c01.far_reuse_case(FORMATS, tier), c01.paint_variants_case(FORMATS, tier), c01.overlay_case(FORMATS, tier), c01.prefix_pair_case(FORMATS, tier), c01.sandwich_case(FORMATS, tier, tolerances=TOLS), c01.inplace_reuse_case(FORMATS, tier))
 
 
 shrink = c01.shrink
@@ -69,6 +69,11 @@ def judge(case):
     v.cls("tol:%s" % t)
     srcs = to_build_sources(case)
     off = build.build_font(dict(cfg, reuse_tolerance=-1), srcs)
+    if t > 0 and sum(len(s_["svg"]) for s_ in srcs) % 2 == 0:  # half of the cases, decided by the case itself
+        # the same sources built first with a much looser tolerance in this process (as any program that builds several fonts
+        # does): whatever the reuse machinery remembers must not leak into the build that is judged
+        v.cls("warm-up:looser-tolerance-first")
+        build.build_font(dict(cfg, reuse_tolerance=max(5.0, 50 * t)), srcs)
     on = build.build_font(cfg, srcs)
     if on.error is not None or off.error is not None:
         if on.error is not None and off.error is not None:  # the input itself cannot be built (the two paths may notice it in different places)
